@@ -16,6 +16,7 @@ type c02Case struct {
 	Empty   int    `json:"empty,omitempty"` // 0 none; 1 first branch empty; 2 every second branch empty; 3 all branches empty; 4 first branch comment-only; 5 all branches comment-only
 	Paren   bool   `json:"paren,omitempty"` // branch bodies and the text after the construct start with "("
 	Place   []int  `json:"place"`           // nesting: 0 top, 1 in @each body, 2 in @if branch, 3 in @elseif branch, 4 in @else branch
+	Twin    bool   `json:"twin,omitempty"`  // a second, always taken @if follows the construct in the same block
 	Pre     int    `json:"pre,omitempty"`   // what precedes the construct in the template: 0 text only, 1 a printed expression with parentheses, 2 a printed call
 }
 
@@ -36,7 +37,8 @@ func c02Reps() [3][]c02Rep {
 		{val(vBool(true)), val(vInt(1)), {&Expr{Op: "neg", Kids: []*Expr{eLit(vInt(1))}}, &neg1}, val(vFloat(0.5)), val(vStr("a")), val(vStr("0")), val(vStr(" ")),
 			{&Expr{Op: "arr"}, &emptyArr}, {&Expr{Op: "arr", Kids: []*Expr{eLit(vInt(0))}}, &arr0},
 			{&Expr{Op: "obj"}, &emptyObj}, {&Expr{Op: "obj", Keys: []string{"a"}, Kids: []*Expr{eLit(vInt(0))}}, &objA},
-			{eCall(eLit(vStr("ab")), "len"), nil}}, // a condition that contains parentheses of its own
+			{eCall(eLit(vStr("ab")), "len"), nil}, // a condition that contains parentheses of its own
+			val(vFloat(0.0000000001)), {eBin("-", eBin("+", eLit(vFloat(0.1)), eLit(vFloat(0.2))), eLit(vFloat(0.3))), nil}}, // tiny, but not zero
 		{{eVar("zz"), nil}, {eBin("+", eLit(vInt(1)), eLit(vStr("a"))), nil}, {eBin("/", eLit(vInt(1)), eLit(vInt(0))), nil},
 			{eBin("%", eLit(vInt(1)), eLit(vInt(0))), nil}, {eDot(eVar("zz"), "k"), nil}, {eCall(eVar("zz"), "len"), nil}},
 	}
@@ -87,6 +89,10 @@ func c02Build(cs c02Case) ([]*Node, map[string]Val) {
 	case "breakif", "continueif":
 		construct = []*Node{nText("P"), {K: "each", Name: "w", E: &Expr{Op: "arr", Kids: []*Expr{eLit(vInt(1)), eLit(vInt(2))}},
 			Body: []*Node{nText("A"), {K: cs.Mode, E: cond(0, cs.Classes[0])}, nText("Z")}}, nText("Q")}
+	}
+	if cs.Twin {
+		construct = append(construct, nText("-"), &Node{K: "if", E: eLit(vBool(true)), Body: []*Node{nText("TWIN")}}, nText("+"),
+			&Node{K: "each", Name: "tw", E: &Expr{Op: "arr", Kids: []*Expr{eLit(vInt(7))}}, Body: []*Node{nText("e"), nPrint(eVar("tw"))}})
 	}
 	for d := len(cs.Place) - 1; d >= 0; d-- {
 		tag := fmt.Sprintf("%d", d)
@@ -185,7 +191,7 @@ func c02Run(c *Ctx) {
 		}
 	}
 	recP(nil)
-	maxRep := 12
+	maxRep := 14
 	for n := 1; n <= maxElseIf+1; n++ {
 		sizes := make([]int, n)
 		for i := range sizes {
@@ -222,6 +228,11 @@ func c02Run(c *Ctx) {
 						for _, pl := range places {
 							if !do(c02Case{Mode: "chain", Classes: classes, HasElse: hasElse, Rep: rep, VarMask: vm, Place: pl}, nontriv) {
 								return false
+							}
+							if vm == 0 && rep < 3 {
+								if !do(c02Case{Mode: "chain", Classes: classes, HasElse: hasElse, Rep: rep, VarMask: vm, Place: pl, Twin: true}, true) {
+									return false
+								}
 							}
 							if vm == 0 {
 								for pre := 1; pre <= 2; pre++ {
